@@ -28,11 +28,11 @@ ASSUMPTIONS = [
     "path templates differing only by a trailing 's' are not generated (the statement is silent on the plural heuristic)",
 ]
 EXHAUSTIVE = False
-BOUNDS = {"trees_enum": "all trees of <=2 nodes over the reduced universe (5 operations, ids {\"1\", \"12\", 1}, statuses {200,404,403,500}); all 3-node trees over the focus universe (one resource in both identifier spellings, nested order, statuses {200,404}); thorough adds all 3-node trees over the reduced universe with statuses {200,404,403}; parent in {none, any earlier}; linked in {all, none}"}
+BOUNDS = {"trees_enum": "all trees of <=2 nodes over the reduced universe (5 operations, ids {\"1\", \"12\", 1}, statuses {200,404,403,500}); all 3-node trees over the focus universe (one resource in both identifier spellings, nested order, statuses {200,404}); thorough adds all 3-node trees over the reduced universe with statuses {200,404,403}; parent in {none, any earlier}; linked in {all, none} plus {path only} for operations that have a header / query parameter next to their path parameters (one of them named like a path parameter)"}
 
 
 def _param(name, loc="path"):
-    return {"name": name, "in": loc, "required": True, "schema": {"type": "string", "enum": ["zz"]} if loc == "query" else {"type": "string"}}
+    return {"name": name, "in": loc, "required": True, "schema": {"type": "string", "enum": ["zz"]} if loc != "path" else {"type": "string"}}
 
 
 _R = {"200": {"description": "ok"}}
@@ -42,9 +42,10 @@ RAW = {
     "paths": {
         "/users": {"post": {"responses": _R}},
         "/users/{id}": {"parameters": [_param("id")], "get": {"responses": _R}, "delete": {"responses": _R}, "put": {"parameters": [_param("q", "query")], "responses": _R}},
-        "/users/{id}/orders/{oid}": {"parameters": [_param("id"), _param("oid")], "get": {"responses": _R}, "delete": {"responses": _R}},
+        # a header / query parameter that shares its *name* with a path parameter is a different parameter
+        "/users/{id}/orders/{oid}": {"parameters": [_param("id"), _param("oid")], "get": {"parameters": [_param("id", "header")], "responses": _R}, "delete": {"responses": _R}},
         "/orders": {"post": {"responses": _R}},
-        "/orders/{oid}": {"parameters": [_param("oid")], "get": {"responses": _R}, "delete": {"responses": _R}},
+        "/orders/{oid}": {"parameters": [_param("oid")], "get": {"parameters": [_param("oid", "query")], "responses": _R}, "delete": {"responses": _R}},
     },
 }
 OPS = [
@@ -58,7 +59,9 @@ OPS = [
     ("get", "/orders/{oid}", ("oid",)),
     ("delete", "/orders/{oid}", ("oid",)),
 ]
-HAS_QUERY = {("put", "/users/{id}")}
+# operations with one parameter outside the path: (container keyword of as_strategy, name)
+EXTRA = {("put", "/users/{id}"): ("query", "q"), ("get", "/orders/{oid}"): ("query", "oid"), ("get", "/users/{id}/orders/{oid}"): ("headers", "id")}
+HAS_QUERY = set(EXTRA)
 IDS = ["1", "12", 1]  # the integer 1 and the string "1" are the same identifier on the wire
 STATUSES = [200, 404, 403, 500]
 STATUSES_THOROUGH = [200, 201, 204, 302, 400, 403, 404, 500, 503]
@@ -93,8 +96,9 @@ def _mk_case(node):
         kwargs = {}
         if linked in ("all", "path") and pp:
             kwargs["path_parameters"] = pp
-        if linked == "all" and (node["method"], node["path"]) in HAS_QUERY:
-            kwargs["query"] = {"q": "zz"}
+        if linked == "all" and (node["method"], node["path"]) in EXTRA:
+            container, name = EXTRA[(node["method"], node["path"])]
+            kwargs[container] = {name: "zz"}
         case = examples.generate_one(op.as_strategy(**kwargs))
         if pp and "path_parameters" not in kwargs:
             # generated identifiers that happen to have these values: the case owns them, no override is visible
@@ -244,17 +248,19 @@ def _focus_universe():
     return out
 
 
-def _links(i):
+def _links(i, node):
     yield None, "none"
     for p in range(i):
         yield p, "all"
         yield p, "none"
+        if (node["method"], node["path"]) in EXTRA:
+            yield p, "path"  # only the path parameters came from the link
 
 
 def _trees(universe, sizes):
     for k in sizes:
         for combo in itertools.product(universe, repeat=k):
-            for links in itertools.product(*[list(_links(i)) for i in range(k)]):
+            for links in itertools.product(*[list(_links(i, combo[i])) for i in range(k)]):
                 yield [dict(n, pp=dict(n["pp"]), parent=par, linked=lk) for n, (par, lk) in zip(combo, links)]
 
 
